@@ -92,6 +92,14 @@ class Source:
         self.class_file[name] = rel
         bases = [ast.unparse(b) for b in n.bases]
         self.bases[name] = bases
+        # class-level simple constants (e.g. Telescope.name = 'telescope'), read from the source on every run
+        cc = getattr(self, 'class_consts', None)
+        if cc is None:
+            cc = self.class_consts = {}
+        for s_ in n.body:
+            if isinstance(s_, ast.Assign) and len(s_.targets) == 1 and isinstance(s_.targets[0], ast.Name) \
+                    and isinstance(s_.value, ast.Constant):
+                cc.setdefault(name, {})[s_.targets[0].id] = s_.value
         if any(b.split('.')[-1] == 'Enum' for b in bases):
             members = {}
             for s in n.body:
